@@ -85,6 +85,13 @@ CHECKS = {
          "For every compiled query with variables: the valid map, the empty map, each variable dropped, extra names, each variable replaced by each of 17 values of every kind and nesting, and two bad values at once are given to the real "
          "InterpretedQuery::from_query_and_arguments; TLC compares accept/reject and the named missing / unused / ill-typed variables with ArgCheck.tla.",
          "Enum argument values are not in the universe (the crate does not support them: D10, see DESIGN section 8)."),
+ "C19": (MC, "6/C19", "TLC judge (Schema!ValidSchema, one named predicate per documented rule) on a mutant family of schema documents rendered to SDL and given to the real Schema::parse under catch_unwind",
+         "A valid base schema and every single mutation (thorough: every pair) of a 56-operator catalogue covering each rule in both directions plus duplicate / malformed blocks; the real accept / typed-error / panic outcome is compared with Schema!ValidSchema.",
+         "Documents are built from object / interface types, custom scalars, directive definitions and schema blocks; enum / union / input / extend definitions are outside the supported constructs. Eight malformed-document panics are listed known findings (D13)."),
+ "C20": (MC, "6/C20", "TLC judge (Introspect!Expected): row bags of ten fixed introspection queries through the real SchemaAdapter compared with the contents of the abstract schema document; check_adapter_invariants on SchemaAdapter",
+         "For every schema of the family that the real validator accepts, vertex types and interface flags, implements, implementer, properties with type text, edges with target / cardinality flags, parameters with type text and JSON default, "
+         "and entrypoints are queried through the real SchemaAdapter (directly and through the Schema vertex); TLC compares each row bag with Introspect.tla. The repository's own check_adapter_invariants is run on SchemaAdapter.",
+         "Docs strings are not compared. Bounded by the schema family."),
 }
 NOT_YET ="check not built yet at this commit (see DESIGN.md section 6 for the planned decision procedure)"
 
